@@ -9,14 +9,22 @@ deductive offset lemma assumes: text before the first touched line is unchanged 
 """
 import ast
 import itertools
+import re
 import multiprocessing as mp
 import random
 
 FILLER = ["a = 1", "b = 2", "c = 3", "d = 4", "e = 5"]
 
 
+# every spelling the ignore comment may have (the tool's regular expression: #\s*pyrefact\s*:\s*(skip_file|ignore))
+SPELLINGS = ["  # pyrefact: ignore", "  # pyrefact:ignore", "  #pyrefact:ignore", "  # pyrefact : ignore", "  #  pyrefact:  ignore"]
+IGNORE_RE = re.compile(r"#\s*pyrefact\s*:\s*(skip_file|ignore)")
+
+
 def build_source(ignored_line):
-    lines = [s + ("  # pyrefact: ignore" if i == ignored_line else "") for i, s in enumerate(FILLER)]
+    """ignored_line: None, a line index (canonical spelling) or (line index, index into SPELLINGS)"""
+    idx, form = (ignored_line, 0) if not isinstance(ignored_line, (tuple, list)) else ignored_line
+    lines = [s + (SPELLINGS[form] if i == idx else "") for i, s in enumerate(FILLER)]
     return "\n".join(lines) + "\n"
 
 
@@ -85,7 +93,7 @@ def ov(a, b):
 def touches_ignored(source, rng):
     off = 0
     for line in source.splitlines(keepends=True):
-        if ov(rng, (off, off + len(line))) and "pyrefact: ignore" in line:
+        if ov(rng, (off, off + len(line))) and IGNORE_RE.search(line):
             return True
         off += len(line)
     return False
@@ -229,7 +237,7 @@ def configs(tier, seed):
     # exhaustive: all pairs of rewrites in one rule, all transaction assignments, both yield orders, +- ignored line
     singles = [(k, t, x) for (k, t) in opts for x in txn_choices]
     for a, b in itertools.product(singles, singles):
-        for ign in (None, 1):
+        for ign in (None, 1, (1, 1), (1, 3)):
             out.append((ign, [[a, b]]))
     exhaustive_n = len(out)
     # sampled: 3-4 rewrites over 1-2 rules
@@ -242,7 +250,7 @@ def configs(tier, seed):
             groups = [items[:cut], items[cut:]]
         else:
             groups = [items]
-        out.append((rnd.choice((None, None, 0, 2)), groups))
+        out.append((rnd.choice((None, None, 0, 2, (0, 2), (2, 4))), groups))
     return out, exhaustive_n
 
 
@@ -275,7 +283,7 @@ def run(tier, seed):
     nontrivial = sum(1 for c in cfgs if sum(len(g) for g in c[1]) >= 2)
     res = {"name": "c10-marker-drive", "function": "processing.fix / processing.chain / _schedule_rewrites / _apply_rewrites / _do_rewrite",
            "contract": "C10 sentences on the output text + _do_rewrite prefix-unchanged",
-           "space": f"filler module of 5 statements; rewrite kinds {KINDS} x 4 targets x transaction in (default,1,2); ALL ordered pairs in one rule x ignored-line in (none, line 1) = {exhaustive_n} configurations exhaustively; plus {len(cfgs) - exhaustive_n} sampled configurations of 3-4 rewrites over 1-2 rules (seeded)",
+           "space": f"filler module of 5 statements; rewrite kinds {KINDS} x 4 targets x transaction in (default,1,2); ALL ordered pairs in one rule x ignored-line in (none, line 1 in three spellings of the comment) = {exhaustive_n} configurations exhaustively; plus {len(cfgs) - exhaustive_n} sampled configurations of 3-4 rewrites over 1-2 rules (seeded)",
            "bound": "<=2 rewrites exhaustive, 3-4 sampled", "evaluations": len(cfgs), "distinct_nontrivial": len({repr(c) for c in cfgs if sum(len(g) for g in c[1]) >= 2}),
            "exhaustive": False, "failures": failures, "samples": [repr(cfgs[0]), repr(cfgs[-1])]}
     if errors:
